@@ -556,6 +556,13 @@ def _run_impl(case):
     built = gen_schema.build(x, spec)
     m = built.m
     d0 = gen_schema.dump(x, m)
+    # the ORIGINAL of the statement is what was put in: the description computed from the spec alone.  The dump of the model
+    # built through the API must be that description (otherwise every later comparison would be relative to an in-memory
+    # model that already deviates, read through the same accessors on both sides)
+    dd = gen_schema.diff(gen_schema.spec_dump(spec), d0)
+    if dd:
+        fail('original-differs-from-input', 'the metamodel built through the API reads differently from the classes, values '
+             'and links that were put in (input vs model), at %s' % dd)
     nrows = len(spec['rows'])
     stats['rows'] = nrows
     stats['links'] = len(spec['links'])
